@@ -87,6 +87,10 @@ func plainResponse(r *http.Request, status int, body []byte, enc string, withCL 
 
 var zenc, _ = zstd.NewWriter(nil)
 
+// zencDeclared writes single-segment frames, whose header always carries the
+// Frame_Content_Size field (klauspost omits it for small multi-segment frames).
+var zencDeclared, _ = zstd.NewWriter(nil, zstd.WithSingleSegment(true))
+
 func zstdBytes(raw []byte) []byte { return zenc.EncodeAll(raw, nil) }
 
 func zstdDecode(b []byte) ([]byte, error) {
@@ -103,7 +107,7 @@ func zstdDecode(b []byte) ([]byte, error) {
 func zstdFrame(chunk []byte, declare bool) ([]byte, error) {
 	var out []byte
 	if declare {
-		out = zenc.EncodeAll(chunk, nil)
+		out = zencDeclared.EncodeAll(chunk, nil)
 	} else {
 		var buf bytes.Buffer
 		w, err := zstd.NewWriter(&buf, zstd.WithWindowSize(1024), zstd.WithEncoderConcurrency(1))
